@@ -532,3 +532,80 @@ func hsCleanup() {
 		_ = os.RemoveAll(hsDir)
 	}
 }
+
+// ---------------------------------------------------------------- mz
+
+// `mz run proto= pkt=`: what the handler BEHIND edns sees when it materializes the request —
+// the decoded, normalized message and the request-tree markers on its context — for a wire-born
+// request (Request.materialize + Chain.detachStrictContext) and for the decoded form of the
+// same packet (SetEdns0 in the decoded body).
+type mprobe struct {
+	reached bool
+	sum     string
+}
+
+func (p *mprobe) Name() string { return "mprobe" }
+func (p *mprobe) ServeDNS(ctx context.Context, ch *middleware.Chain) {
+	p.reached = true
+	ctx, req := ch.Materialize(ctx)
+	if req == nil {
+		p.sum = "undecodable"
+		return
+	}
+	opt := "noopt"
+	if o := req.IsEdns0(); o != nil {
+		opt = fmt.Sprintf("udp=%d,do=%s,ver=%d,xr=%d,opts=%d", o.UDPSize(), vlib.B(o.Do()), o.Version(), o.ExtendedRcode(), len(o.Option))
+	}
+	q := "-"
+	if len(req.Question) == 1 {
+		q = fmt.Sprintf("%s/%d/%d", req.Question[0].Name, req.Question[0].Qtype, req.Question[0].Qclass)
+	}
+	p.sum = fmt.Sprintf("ecs=%s/id=%d/fl=%d/q=%s/an=%d/ns=%d/ar=%d/%s", vlib.B(middleware.HasClientECS(ctx)), req.Id, hdrWord(req.MsgHdr), q,
+		len(req.Answer), len(req.Ns), len(req.Extra), opt)
+	ch.Cancel()
+}
+
+func execMZ(a map[string]string) vlib.Res {
+	pkt := vlib.UnHex(a["pkt"])
+	proto := a["proto"]
+	run := func(wire bool) string {
+		pr := &mprobe{}
+		w := mock.NewWriter(proto, "203.0.113.9:4242")
+		ch := middleware.NewChain([]middleware.Handler{edH, pr})
+		if wire {
+			wreq := middleware.VerifC05WireRequest(pkt)
+			if wreq == nil {
+				return "none"
+			}
+			ch.ResetWire(w, wreq)
+			ch.Next(context.Background())
+			ch.Finish()
+		} else {
+			m := new(dns.Msg)
+			if err := m.Unpack(pkt); err != nil || len(m.Question) != 1 {
+				return "none"
+			}
+			ch.Reset(w, m)
+			ch.Next(context.Background())
+		}
+		switch {
+		case pr.reached:
+			return pr.sum
+		case w.Msg() != nil:
+			return fmt.Sprintf("reply/rcode=%d", w.Msg().Rcode)
+		}
+		return "drop"
+	}
+	ws, ms := run(true), run(false)
+	or := "ok"
+	if ws == "none" {
+		ms = "skip"
+	} else if ws != ms {
+		or = fmt.Sprintf("FAIL sig=c05/materialize/continuation-differs wire=%s msg=%s", ws, ms)
+	}
+	tags := ""
+	if ws != "none" {
+		tags = "nt"
+	}
+	return vlib.Res{Impl: "w=" + ws + " m=" + ms, Oracle: or, Tags: tags}
+}
